@@ -43,6 +43,10 @@ pub enum StartTlsResp {
     Silent,
     /// success, with a cleartext LDAP reply for the next message ID appended in the same write
     SuccessPlusInjected,
+    /// a Notice of Disconnection (message ID 0) instead of the response, then close
+    NoticeThenClose,
+    /// an unsolicited notice (message ID 0) first, then the success response
+    NoticeThenSuccess,
 }
 
 #[derive(Clone, Debug, PartialEq, Serialize, Deserialize)]
@@ -268,6 +272,15 @@ fn tls_peer(mut s: TcpStream, scheme_starttls: bool, starttls: StartTlsResp, tls
                             ctrls: None,
                         }));
                         let _ = s.write_all(&b);
+                    }
+                    StartTlsResp::NoticeThenClose => {
+                        let _ = s.write_all(&ext_response(0, 52));
+                        return;
+                    }
+                    StartTlsResp::NoticeThenSuccess => {
+                        let _ = s.write_all(&ext_response(0, 80));
+                        let _ = s.flush();
+                        let _ = s.write_all(&ext_response(id, 0));
                     }
                     StartTlsResp::Garbage => {
                         let _ = s.write_all(&[0x30, 0x03, 0xff, 0xff, 0xff, 0x15, 0x03]);
